@@ -95,7 +95,8 @@ def run(ctx):
         ctx.check("message-tags", "make_dele/tags", okb and tags == sp["versions"]["Google"]["dele_tags"], "DELE = PUBK, MINT, MAXT",
                   "DELE message tags are %s (%s)" % (tags, why), ctx.loc(md))
         if okb and len(fields) == 3:
-            okpk = is_call(fields[0][1], "MsgSigner::public_key_bytes") and fields[0][1][2][0] == ("field", ("param", md.path, 1), "signer")
+            from lib import signer_pubkey
+            okpk = signer_pubkey(W, fields[0][1]) == ("field", ("param", md.path, 1), "signer")
             ctx.check("message-tags", "make_dele/pubk-is-online-key", okpk, "PUBK = public key of this online key's signer",
                       "DELE.PUBK is %s" % fmt(fields[0][1]), md.loc(fields[0][2]))
             mint, maxt = fields[1][1], fields[2][1]
